@@ -1433,6 +1433,13 @@ func (fv *FV) havocSpecLoc(st *State, env *SpecEnv, a SExpr) {
 		st.heap[ghostKey(sel.Sel)] = Val{T: fv.sess.fresh("ghost_"+sel.Sel, "Int"), S: "Int", Go: types.Typ[types.Int]}
 		return
 	}
+	if id, ok := sel.X.(SIdent); ok && id.Name == "chans" && sel.Sel == "closed" {
+		before := fv.heapGet(st, "chan.closed", "Bool", nil)
+		fv.havocHeapKey(st, "chan.closed")
+		after := st.heap["chan.closed"]
+		fv.assume(st, fmt.Sprintf("(forall ((r!c Int)) (! (=> (select %s r!c) (select %s r!c)) :pattern ((select %s r!c))))", before.T, after.T, after.T))
+		return
+	}
 	// Type.f form?
 	if id, ok := sel.X.(SIdent); ok {
 		if _, bound := env.names[id.Name]; !bound {
@@ -1538,9 +1545,51 @@ func (fv *FV) callMods(call *ast.CallExpr, ms *modSet, depth int) {
 		}
 		for _, a := range c.Assigns {
 			if sel, ok := a.(SSel); ok {
+				if id, isId := sel.X.(SIdent); isId && id.Name == "ghost" {
+					ms.heap[ghostKey(sel.Sel)] = true
+					ms.addBase(ghostKey(sel.Sel), nil)
+					continue
+				}
+				if id, isId := sel.X.(SIdent); isId && id.Name == "chans" && sel.Sel == "closed" {
+					ms.heap["chan.closed"] = true
+					ms.addBase("chan.closed", nil)
+					continue
+				}
 				for _, k := range fv.w.keysForFieldName(sel.Sel) {
 					ms.heap[k] = true
 					ms.addBase(k, nil)
+				}
+			}
+		}
+		// ghost variables the callee sets, channels it closes, slices it mutates in place
+		for _, gs := range c.GhostSets {
+			ms.heap[ghostKey(gs.Name)] = true
+			ms.addBase(ghostKey(gs.Name), nil)
+		}
+		if len(c.Closes) > 0 {
+			ms.heap["chan.closed"] = true
+			ms.addBase("chan.closed", nil)
+		}
+		for _, mp := range c.Mutates {
+			for i, pn := range c.Params {
+				if pn != mp {
+					continue
+				}
+				ai := i
+				if c.Recv != "" {
+					ai = i - 1
+				}
+				var ae ast.Expr
+				if ai == -1 {
+					ae = recvExpr
+				} else if ai >= 0 && ai < len(call.Args) {
+					ae = call.Args[ai]
+				}
+				if ae != nil {
+					if o := fv.rootObj(ae); o != nil {
+						ms.vars[o] = true
+					}
+					fv.heapKeysOfLhs(ae, ms)
 				}
 			}
 		}
